@@ -54,10 +54,12 @@ MaskedRows(t, mask) == LET sel == SelectSeq([i \in 1..NRows(t) |-> i], LAMBDA i 
                        IN Table(t.cols, [j \in 1..Len(sel) |-> t.rows[sel[j]]])
 
 (* ----------------------------------------------- permitted-set operations *)
+CountIn(s, x) == Cardinality({i \in 1..Len(s) : s[i] = x})
 IsPermOf(a, b) == /\ Len(a) = Len(b)
-                  /\ \E p \in [1..Len(a) -> 1..Len(a)] :
-                        (\A i, j \in 1..Len(a) : i # j => p[i] # p[j]) /\ \A i \in 1..Len(a) : a[i] = b[p[i]]
-Perms(s) == {[i \in 1..Len(s) |-> s[p[i]]] : p \in {q \in [1..Len(s) -> 1..Len(s)] : \A i, j \in 1..Len(s) : i # j => q[i] # q[j]}}
+                  /\ \A x \in {a[i] : i \in 1..Len(a)} \cup {b[i] : i \in 1..Len(b)} : CountIn(a, x) = CountIn(b, x)
+RECURSIVE IdxPerms(_)
+IdxPerms(S) == IF S = {} THEN {<<>>} ELSE UNION {{<<x>> \o p : p \in IdxPerms(S \ {x})} : x \in S}
+Perms(s) == {[i \in 1..Len(s) |-> s[p[i]]] : p \in IdxPerms(1..Len(s))}
 
 (* sort: any permutation whose non-null keys are monotone, with the nulls together at one end *)
 SortedBy(rows, col, desc) ==
@@ -127,7 +129,7 @@ FirstKeys(t, col) ==
 GroupBy_(t, col) == [g \in 1..Len(FirstKeys(t, col)) |->
                        [key |-> FirstKeys(t, col)[g].k, tab |-> Table(t.cols, GroupRows(t, col, FirstKeys(t, col)[g].k))]]
 ConcatGroups(cols, groups) ==
-  Table(cols, FoldSeq(LAMBDA g, acc : acc \o g.tab.rows, <<>>, Reverse(groups)))
+  Table(cols, FoldLeft(LAMBDA acc, g : acc \o g.tab.rows, <<>>, groups))
 
 (* cutby(col, bins): row goes to the interval (bins[b], bins[b+1]] that contains its value;
    values outside every interval and nulls belong to no interval *)
